@@ -30,7 +30,7 @@ ASSUMPTIONS = [
     "'draws not recorded' and the parent oracle falls back to 'child is a copy of SOME old agent'",
 ]
 REQUIRED_COUNTERS = ["select_calls", "tournament_draws_recorded", "children_matched_to_parent", "old_population_untouched_checks"]
-CASE_TIMEOUT_S = 300
+CASE_TIMEOUT_S = 1500
 
 
 def preload():
